@@ -54,8 +54,7 @@ let dump_spec () =
       Buffer.add_string buf (vec_str v); Buffer.add_string buf "/";
       Buffer.add_string buf (bstr (dis_zero v)); Buffer.add_string buf "/";
       for r = 0 to s.nr - 1 do
-        if s.swaps && not (row_known r) then Buffer.add_string buf "-"
-        else Buffer.add_string buf (bstr (match Z.compare (dget v (zi r)) Z0 with Eq -> true | _ -> false))
+        Buffer.add_string buf (bstr (match Z.compare (dget v (zi r)) Z0 with Eq -> true | _ -> false))
       done
   done;
   if s.rows then
@@ -83,8 +82,7 @@ let dump_alg () =
       Buffer.add_string buf (vec_str (a_content s.p (ni s.nr) c)); Buffer.add_string buf "/";
       Buffer.add_string buf (bstr (c_is_empty s.p c)); Buffer.add_string buf "/";
       for r = 0 to s.nr - 1 do
-        if s.swaps && not (row_known r) then Buffer.add_string buf "-"
-        else begin
+        begin
           let b = match s.a with
             | A m -> (match a_is_zero_entry s.p m (zi j) (zi r) with Some b -> b | None -> true)
             | K _ -> not (c_nonzero s.p c (zi r)) in
@@ -208,7 +206,7 @@ let () =
           end
         | "ZE" ->
           if s.compr then "SKIP"
-          else if not (col_in_range (ii 0)) || (s.swaps && not (row_known (ii 1))) then "SKIP"
+          else if not (col_in_range (ii 0)) then "SKIP"
           else both (fun d -> d_zero_entry d (i 0) (i 1)) (fun m -> a_zero_entry s.fl s.p m (i 0) (i 1)) (fun _ -> None)
         | "ZC" ->
           if s.compr then "SKIP"
@@ -216,7 +214,6 @@ let () =
           else both (fun d -> d_zero_col nrn d (i 0)) (fun m -> a_zero_col m (i 0)) (fun _ -> None)
         | "SR" ->
           if (not s.swaps) || s.compr then "SKIP"
-          else if not (row_known (ii 0)) || not (row_known (ii 1)) then "SKIP"
           else both (fun d -> Some (d_swap_rows d (i 0) (i 1))) (fun m -> Some (a_swap_rows m (i 0) (i 1))) (fun _ -> None)
         | "SC" ->
           if (not s.swaps) || s.compr then "SKIP"
